@@ -96,7 +96,8 @@ pub fn cheap_key_body(key: Key) {
         _ => N >= 1,
     };
     let can_echo = match key {
-        Key::Up => hist && H >= 2,
+        // an entry can only be recalled if it fits the command buffer (N >= 1)
+        Key::Up => hist && H >= 2 && N >= 1,
         Key::Down => hist,
         _ => N >= 1,
     };
